@@ -863,7 +863,7 @@ def c01_commit_order(env, ob):
     return agg
 
 
-@obligation(id="C01.checkpoint_order", also="C13,C09", funcs="<Pager as Write>::flush",
+@obligation(id="C01.checkpoint_order", also="C13,C09,C08", funcs="<Pager as Write>::flush",
             bounds="every path of the checkpoint (dirty-page loop unrolled once); WAL / file calls uninterpreted",
             native="c01_crash_after_checkpoint_reopens")
 def c01_checkpoint_order(env, ob):
@@ -1018,7 +1018,7 @@ def c04_write_recorded(env, ob):
     return agg
 
 
-@obligation(id="C02.analysis_classification", also="C01", funcs="WriteAheadLog::run_analysis",
+@obligation(id="C02.analysis_classification", also="C01,C08", funcs="WriteAheadLog::run_analysis",
             bounds="one iteration of the analysis loop from an arbitrary record (kind symbolic); BTreeSet operations "
                    "uninterpreted trace events; the second iteration is cut",
             native="c02_analysis_classification")
@@ -2373,6 +2373,220 @@ def c16_eval_arms(env, ob):
     if inc:
         return result(ob, "inconclusive", reason="; ".join(inc)[:300], **kw)
     return result(ob, "discharged", **kw)
+
+
+# ---------------------------------------------------------------------------------------------------------------------
+# C08: recovery is ordered, ends by emptying the log only after it succeeded, and its redo can be repeated
+# ---------------------------------------------------------------------------------------------------------------------
+@obligation(id="C08.recovery_phases_in_order", funcs="Database::run_recovery::{closure#0},WalRecuperator::run_recovery",
+            bounds="every path of the recovery worker closure and of WalRecuperator::run_recovery; callees uninterpreted "
+                   "(each phase may fail)", native="c08_recovery_can_be_repeated")
+def c08_phases(env, ob):
+    """open() = analysis, then undo of the losers, then redo of the winners, then - only if all of that succeeded - the log
+    is emptied and the recovery transaction commits.  A failed (or interrupted: the same early return) recovery must leave
+    the log in place, otherwise the next open has nothing to recover from."""
+    ctx, f, args, res = explore(env, "src/lib.rs", "run_recovery::{closure#0}", loop_bound=1)
+
+    def bad(path, rv):
+        if path.panics or rv is None or not isinstance(rv, Agg):
+            return None
+        an, rec = idx(path, r"Pager::run_analysis$"), idx(path, r"WalRecuperator::run_recovery$")
+        tr, cm = idx(path, r"Pager::truncate_wal$"), idx(path, r"TransactionContext::commit_transaction$")
+        if tr:
+            if not an or not rec or an[0] > rec[0] or rec[0] > tr[0]:
+                return ("log_emptied_before_analysis_and_recovery_ran", None)
+            r = path.events[rec[0]]["ret"]
+            if isinstance(r, Agg):
+                return ("log_emptied_although_recovery_failed", f"(not (= {r.get_disc().term} {bvconst(0, 64)}))")
+        if cm and (not tr or tr[0] > cm[0]):
+            return ("recovery_transaction_committed_before_the_log_was_emptied", ret_is_ok(rv))
+        isok = ret_is_ok(rv)
+        if not (an and rec and tr and cm):
+            return ("recovery_reports_success_without_running_every_phase", isok)
+        return None
+    a = trace_obligation(env, ob, ctx, res, bad, "the recovery worker runs its phases out of order")
+    ctx2, f2, args2, res2 = explore(env, "io/recovery.rs", "run_recovery", sig=r"WalRecuperator", loop_bound=1)
+
+    def bad2(path, rv):
+        if path.panics or rv is None or not isinstance(rv, Agg):
+            return None
+        u, r = idx(path, r"WalRecuperator::run_undo$"), idx(path, r"WalRecuperator::run_redo$")
+        if r and (not u or u[0] > r[0]):
+            return ("redo_runs_before_undo", None)
+        if not (u and r):
+            return ("recovery_succeeds_without_undo_and_redo", ret_is_ok(rv))
+        ur = path.events[u[0]]["ret"]
+        if isinstance(ur, Agg):
+            return ("redo_runs_although_undo_failed", f"(not (= {ur.get_disc().term} {bvconst(0, 64)}))")
+        return None
+    b = trace_obligation(env, ob, ctx2, res2, bad2, "WalRecuperator::run_recovery runs undo / redo out of order")
+    return merge(a, b)
+
+
+@obligation(id="C08.redo_of_an_insert_can_be_repeated", also="C01", funcs="DmlExecutor::insert,WalRecuperator::redo_insert",
+            bounds="every path of DmlExecutor::insert (the function redo_insert / undo_delete replay rows through; loops "
+                   "unrolled once); B+tree calls uninterpreted", native="c08_recovery_can_be_repeated")
+def c08_redo_insert(env, ob):
+    """Recovery replays logged rows with their original row ids over a data file that may already contain them (crash
+    after the pages were written but before the log was emptied; recovery interrupted and run again).  The row path must
+    therefore look the key up first and only call the tree's insert - which refuses an existing key - when it is absent."""
+    ctx, f, args, res = explore(env, "runtime/dml.rs", "insert", sig=r"DmlExecutor", loop_bound=1)
+    var = env.enum_variants("tree/bplustree.rs", "SearchResult")
+
+    def bad(path, rv):
+        if path.panics or rv is None:
+            return None
+        ins = idx(path, r"Btree::<.*>::insert$")
+        if not ins:
+            return None
+        se = [i for i in idx(path, r"Btree::<.*>::search_tuple$") if i < ins[0]]
+        if not se:
+            return ("row_inserted_without_looking_the_key_up_first", None)
+        r = path.events[se[-1]]["ret"]
+        # Result<SearchResult, _>: the Ok payload's discriminant decides Found / NotFound
+        d = ctx.smtname(r.name + "@Ok.0#d")
+        if d not in ctx.decls:
+            return ("insert_does_not_depend_on_the_lookup_result", None)
+        return ("tree_insert_called_for_a_key_that_was_found", f"(= {d} {bvconst(var['Found'], 64)})")
+    a = trace_obligation(env, ob, ctx, res, bad, "DmlExecutor::insert calls Btree::insert although the key may be present", cuts_ok=True)
+    # and redo_insert goes through that function
+    ctx2, f2, args2, res2 = explore(env, "io/recovery.rs", "redo_insert", loop_bound=1)
+
+    def bad2(path, rv):
+        if path.panics or rv is None or not isinstance(rv, Agg):
+            return None
+        if not idx(path, r"DmlExecutor::insert$"):
+            return ("redo_of_an_insert_bypasses_the_idempotent_row_path", ret_is_ok(rv))
+        return None
+    b = trace_obligation(env, ob, ctx2, res2, bad2, "redo_insert does not use DmlExecutor::insert", cuts_ok=True)
+    return merge(a, b)
+
+
+# ---------------------------------------------------------------------------------------------------------------------
+# C15: catalog rows are versioned by the executing transaction; constraints get their index; back-fill follows the
+# declared column list
+# ---------------------------------------------------------------------------------------------------------------------
+CATALOG = "schema/catalog.rs"
+
+
+@obligation(id="C15.catalog_writes_stamp_own_xid", also="C04", funcs="Catalog::store_relation,Catalog::remove_relation,Catalog::update_relation",
+            bounds="every path of the three catalog mutators (loops unrolled once); callees uninterpreted",
+            native="c15_drop_with_older_session_open")
+def c15_catalog_stamps(env, ob):
+    """CREATE / DROP / ALTER are MVCC writes to the two catalog trees: the rows they build, re-version or mark deleted must
+    carry the id of the executing transaction (Snapshot::xid), otherwise the change becomes visible - or stays invisible -
+    according to some other transaction's fate (e.g. an older session that is still open)."""
+    agg = None
+    for fn in ("store_relation", "remove_relation", "update_relation"):
+        try:
+            ctx, f, args, res = explore(env, CATALOG, fn, sig=r"_1: &Catalog", loop_bound=1)
+        except Unsupported as e:
+            agg = merge(agg, result(ob, "inconclusive", reason=f"{fn}: {str(e)[:150]}"))
+            continue
+        # store_relation receives the transaction id itself (its only u64 parameter besides ids inside Relation)
+        given = {a.term for a, (n, t) in zip(args, f.params) if isinstance(a, Leaf) and t.strip() == "u64"} if "&Snapshot" not in f.header else set()
+
+        def bad(path, rv, fn=fn, given=given):
+            if path.panics or rv is None:
+                return None
+            own = {e["ret"].term for e in path.events if callee_is(e, r"Snapshot::xid$") and isinstance(e["ret"], Leaf)} | given
+            for e in path.events:
+                for rx, ai in ((r"TupleBuilder::<.*>::build$", -1), (r"Tuple::add_version_with$", 2), (r"Tuple::delete$", 1)):
+                    if callee_is(e, rx):
+                        a = e["args"][ai]
+                        if not isinstance(a, Leaf) or a.term not in own:
+                            return (f"catalog_row_stamped_with_other_than_own_xid@Catalog::{fn}", None)
+            return None
+        agg = merge(agg, trace_obligation(env, ob, ctx, res, bad, "catalog row stamped with something else than the executing transaction's id", cuts_ok=True))
+    return agg
+
+
+@obligation(id="C15.catalog_trees_change_together", funcs="Catalog::store_relation,Catalog::remove_relation",
+            bounds="every path of the two functions (loops unrolled once); callees uninterpreted",
+            native="c15_drop_with_older_session_open")
+def c15_both_trees(env, ob):
+    """The catalog is two trees (id -> relation, name -> id).  A successful CREATE writes a row into both, a successful
+    DROP visits both: a name that resolves to nothing, or a relation no name leads to, is an incoherent catalog."""
+    ctx, f, args, res = explore(env, CATALOG, "store_relation", sig=r"_1: &Catalog", loop_bound=1)
+    wr = r"Btree::<.*>::(insert|upsert|update)$"
+
+    def bad(path, rv):
+        if path.panics or rv is None or not isinstance(rv, Agg):
+            return None
+        it, tt = idx(path, r"relation_as_meta_index_tuple$"), idx(path, r"relation_as_meta_table_tuple$")
+        w = idx(path, wr)
+        ok_i = bool(it) and any(k > it[0] for k in w)
+        ok_t = bool(tt) and any(k > tt[0] for k in w)
+        if not ok_i or not ok_t or len(w) < 2:
+            return ("relation_stored_in_only_one_catalog_tree", ret_is_ok(rv))
+        return None
+    a = trace_obligation(env, ob, ctx, res, bad, "store_relation succeeds without writing both catalog trees", cuts_ok=True)
+    ctx2, f2, args2, res2 = explore(env, CATALOG, "remove_relation", sig=r"_1: &Catalog", loop_bound=1)
+
+    def bad2(path, rv):
+        if path.panics or rv is None or not isinstance(rv, Agg):
+            return None
+        # (a relation that is not found / not visible in the id tree is "nothing to remove": Ok without marks)
+        if idx(path, r"Tuple::delete$") and not (idx(path, r"meta_table_schema$") and idx(path, r"meta_index_schema$")):
+            return ("relation_removed_from_only_one_catalog_tree", ret_is_ok(rv))
+        return None
+    b = trace_obligation(env, ob, ctx2, res2, bad2, "remove_relation succeeds without visiting both catalog trees", cuts_ok=True)
+    return merge(a, b)
+
+
+@obligation(id="C15.constraint_gets_its_index", also="C07", funcs="DdlExecutor::add_constraint",
+            bounds="every path of DdlExecutor::add_constraint; callees uninterpreted", native="c15_constraint_after_name_reuse")
+def c15_constraint_index(env, ob):
+    """A PRIMARY KEY / UNIQUE constraint is enforced through a unique index on the table's own tree: declaring it must
+    build that index for THIS table on every successful path - a relation that merely has the same name (left behind by
+    a dropped table, or of another table whose name/columns concatenate to the same string) is not that index."""
+    ctx, f, args, res = explore(env, "runtime/ddl.rs", "add_constraint", sig=r"DdlExecutor", loop_bound=1)
+    built = r"DdlExecutor::create_unique_index$"
+
+    def bad(path, rv):
+        if path.panics or rv is None or not isinstance(rv, Agg):
+            return None
+        named = idx(path, r"index_name$")
+        if named and not idx(path, built):
+            return ("constraint_declared_without_building_its_unique_index", ret_is_ok(rv))
+        return None
+    some = any(idx(p, built) for p, rv in res)
+    if not some:
+        return result(ob, "inconclusive", reason="vacuity: no path of add_constraint builds a unique index", paths=len(res))
+    return trace_obligation(env, ob, ctx, res, bad, "add_constraint returns Ok for a key constraint without create_unique_index", cuts_ok=True)
+
+
+@obligation(id="C15.index_backfill_follows_declared_columns", also="C06,C07", funcs="DdlExecutor::populate_index",
+            bounds="every path of DdlExecutor::populate_index that builds an entry (loops unrolled once); callees uninterpreted",
+            native="c15_index_on_populated_table_reversed_columns")
+def c15_backfill_order(env, ob):
+    """The key of a back-filled index entry must list the values in the order the index declares its columns (that is how
+    later probes build their keys): the walk that assembles it is driven by the declared column list, not by the row."""
+    ctx, f, args, res = explore(env, "runtime/ddl.rs", "populate_index", loop_bound=1)
+    decl = None
+    for i, (n, t) in enumerate(f.params):
+        if re.search(r"&\[usize\]", t):
+            decl = n
+    if decl is None:
+        raise Unsupported("populate_index has no &[usize] parameter (declared column list)")
+
+    def bad(path, rv):
+        if path.panics:
+            return None
+        mk = idx(path, r"Row::new$")
+        if not mk:
+            return None
+        pre = path.events[:mk[0]]
+        by_decl = [e for e in pre if re.search(r"(::into_iter|::iter)$", e["callee"]) and any(("&" + decl + "*") == d for d in e["argdesc"][:1])]
+        by_row = [e for e in pre if re.search(r"(Row::iter|<&Row as IntoIterator>::into_iter|Row::into_iter)$", e["callee"])]
+        if not by_decl and by_row:
+            return ("entry_built_in_table_column_order_not_in_declared_index_order", None)
+        if not by_decl and not idx(path, r"Vec::<types::DataType>::push$"):
+            return ("entry_key_not_assembled_from_the_declared_column_list", None)
+        return None
+    if not any(idx(p, r"Row::new$") for p, rv in res):
+        return result(ob, "inconclusive", reason="vacuity: no path builds an index entry", paths=len(res))
+    return trace_obligation(env, ob, ctx, res, bad, "index back-fill does not follow the declared column order", cuts_ok=True)
 
 
 # ---------------------------------------------------------------------------------------------------------------------
